@@ -4,6 +4,7 @@ package schema
 
 import (
 	"encoding/xml"
+	"regexp"
 	"strconv"
 
 	"github.com/danos/mgmterror"
@@ -433,5 +434,76 @@ func VerifH_C16_Decimal64Lexical() {
 		vrt.Assert(err == nil, "c16.decimal64lexical.canonical-form-accepted")
 	default:
 		vrt.Reach("c16.decimal64lexical.unspecified")
+	}
+}
+
+// VerifH_C16_TwoRejections: the SAME type object rejects two values at two different
+// paths; both errors are kept.  Each must carry the path of its own value and keep its
+// message and app-tag after the other validation has run (an error is a value handed
+// to the caller, not a buffer the type reuses).
+func VerifH_C16_TwoRejections() {
+	which := vrt.Choice("rejecting-type", 8)
+	custom := vrt.Bool("custom-message")
+	msg, tag := "", ""
+	if custom {
+		msg, tag = "custom message", "custom-tag"
+	}
+	var typ Type
+	bad := [2]string{"x", "yyyyy"}
+	switch which {
+	case 0:
+		typ = NewString(xml.Name{Local: "string"}, nil, nil, &Length{Lbs: []Lb{{Start: 2, End: 3}}, Msg: msg, AppTag: tag}, "", false)
+	case 1:
+		re := regexp.MustCompile("^(ab*)$")
+		typ = NewString(xml.Name{Local: "string"}, [][]Pattern{{{Pattern: "ab*", Regexp: re, Msg: msg, AppTag: tag}}}, [][]string{{""}}, nil, "", false)
+	case 2:
+		typ = NewInteger(BitWidth8, xml.Name{Local: "int8"}, []Rb{{Start: 1, End: 5}}, msg, tag, "", false)
+		bad = [2]string{"0", "77"}
+	case 3:
+		typ = NewUinteger(BitWidth8, xml.Name{Local: "uint8"}, []Urb{{Start: 1, End: 5}}, msg, tag, "", false)
+		bad = [2]string{"0", "77"}
+	case 4:
+		typ = NewDecimal64(xml.Name{Local: "decimal64"}, 1, []Drb{{Start: 1, End: 5}}, msg, tag, "", false)
+		bad = [2]string{"0.5", "7.5"}
+	case 5:
+		typ = NewEnumeration(xml.Name{Local: "enumeration"}, []*Enum{NewEnum("a", "", "", Current, 0)}, "", false)
+	case 6:
+		typ = NewBoolean(xml.Name{Local: "boolean"}, "", false)
+	case 7:
+		typ = NewUnion(xml.Name{Local: "union"}, []Type{
+			NewUinteger(BitWidth8, xml.Name{Local: "uint8"}, []Urb{{Start: 3, End: 7}}, msg, tag, "", false),
+			NewString(xml.Name{Local: "string"}, nil, nil, &Length{Lbs: []Lb{{Start: 2, End: 3}}, Msg: msg, AppTag: tag}, "", false),
+		}, "", false)
+	}
+	if vrt.Bool("same-value-twice") {
+		bad[1] = bad[0]
+	}
+	p1, p2 := []string{"first", "leaf"}, []string{"second", "other", "leaf"}
+	vrt.Reach("c16.tworejections." + strconv.Itoa(which))
+	e1 := typ.Validate(c16Ctx{}, p1, bad[0])
+	vrt.Assert(e1 != nil, "c16.tworejections.rejected")
+	if e1 == nil {
+		return
+	}
+	f1, ok := e1.(mgmterror.Formattable)
+	vrt.Assert(ok, "c16.tworejections.error-type")
+	if !ok {
+		return
+	}
+	path1, msg1, tag1, text1 := f1.GetPath(), f1.GetMessage(), f1.GetAppTag(), e1.Error()
+	vrt.Assert(path1 == pathutil.Pathstr(p1), "c16.tworejections.error-carries-path")
+	e2 := typ.Validate(c16Ctx{}, p2, bad[1])
+	vrt.Assert(e2 != nil, "c16.tworejections.rejected")
+	if e2 == nil {
+		return
+	}
+	f2 := e2.(mgmterror.Formattable)
+	vrt.Observe("errors", which, custom, f1.GetPath(), f1.GetMessage(), f2.GetPath(), f2.GetMessage())
+	vrt.Assert(f2.GetPath() == pathutil.Pathstr(p2), "c16.tworejections.error-carries-path")
+	vrt.Assert(f1.GetPath() == path1 && f1.GetMessage() == msg1 && f1.GetAppTag() == tag1 && e1.Error() == text1,
+		"c16.tworejections.earlier-error-unchanged-by-later-validation")
+	if custom && which <= 4 {
+		vrt.Assert(f1.GetMessage() == msg && f2.GetMessage() == msg, "c16.tworejections.custom-error-message")
+		vrt.Assert(f1.GetAppTag() == tag && f2.GetAppTag() == tag, "c16.tworejections.custom-app-tag")
 	}
 }
